@@ -279,7 +279,11 @@ pub enum Prop {
     ResumptionPsk(u64),
     Gce(u8),
     Custom(u8),
+    /// re-initialisation into group "verif-group-2", same suite
+    ReInit,
 }
+
+pub const REINIT_GROUP_ID: &[u8] = b"verif-group-2";
 
 #[derive(Clone, Debug, Default, PartialEq, Eq, PartialOrd, Ord, Hash)]
 pub struct CommitSpec {
@@ -408,6 +412,7 @@ impl World {
             .iter()
             .filter_map(|pr| if let Prop::Remove(x) = pr { Some((*x, self.leaf_of(*x))) } else { None })
             .collect();
+        let suite = CipherSuite::new(self.cfg.suite);
         let g = self.gm(by);
         let mut b = g.commit_builder();
         let mut kps = kps.into_iter();
@@ -419,6 +424,7 @@ impl World {
                 Prop::ResumptionPsk(e) => b.add_resumption_psk(*e)?,
                 Prop::Gce(v) => b.set_group_context_ext(custom_ext(*v))?,
                 Prop::Custom(v) => b.custom_proposal(CustomProposal::new(ProposalType::new(CUSTOM_PROP), vec![*v])),
+                Prop::ReInit => b.reinit(Some(REINIT_GROUP_ID.to_vec()), mls_rs::ProtocolVersion::MLS_10, suite, ExtensionList::new())?,
             };
         }
         if let Some((sk, id)) = &rekey {
@@ -437,6 +443,7 @@ impl World {
         let kp = if let Prop::Add(x) = pr { Some(self.key_package(*x)?) } else { None };
         let kp2 = kp.clone();
         let leaf = if let Prop::Remove(x) = pr { Some(self.leaf_of(*x)) } else { None };
+        let suite = CipherSuite::new(self.cfg.suite);
         let g = self.gm(by);
         let m = match pr {
             Prop::Add(_) => g.propose_add(kp.unwrap(), vec![]),
@@ -445,12 +452,22 @@ impl World {
             Prop::ResumptionPsk(e) => g.propose_resumption_psk(*e, vec![]),
             Prop::Gce(v) => g.propose_group_context_extensions(custom_ext(*v), vec![]),
             Prop::Custom(v) => g.propose_custom(CustomProposal::new(ProposalType::new(CUSTOM_PROP), vec![*v]), vec![]),
+            Prop::ReInit => g.propose_reinit(Some(REINIT_GROUP_ID.to_vec()), mls_rs::ProtocolVersion::MLS_10, suite, ExtensionList::new(), vec![]),
         }?;
         Ok((m, kp2))
     }
 
     pub fn propose_update(&mut self, by: usize) -> Result<MlsMessage, MlsError> {
         self.gm(by).propose_update(vec![])
+    }
+
+    /// Update proposal that also replaces the member's signature key (same identity name).
+    pub fn propose_update_new_identity(&mut self, by: usize) -> Result<MlsMessage, MlsError> {
+        let party = &self.parties[by];
+        let cs = party.client_cs(&self.cfg);
+        let (sk, pk) = cs.signature_key_generate().map_err(|e| MlsError::CryptoProviderError(mls_rs_core::error::IntoAnyError::into_any_error(e)))?;
+        let id = SigningIdentity::new(BasicCredential::new(party.name.as_bytes().to_vec()).into_credential(), pk);
+        self.gm(by).propose_update_with_identity(sk, id, vec![])
     }
 
     pub fn process(&mut self, p: usize, m: &MlsMessage) -> Result<ReceivedMessage, MlsError> {
